@@ -1,15 +1,24 @@
+from contracts import refs_repr as _r
 ID = "C11"
 LEVEL = "other"
-CONTRACT_MODULES = []
-FUNCTIONS = []
+CONTRACT_MODULES = ["contracts.sorting", "contracts.refcount", "contracts.tasks", "contracts.tasks_proto", "contracts.refs", "contracts.refs_repr"]
+FUNCTIONS = [c.qualname for c in _r.REPRS] + ["BinOpExpr.__repr__@operator-tokens", "Manager.load", "Manager.copy_expr_from"]
 RAC = "rac/c11.py"
 RAC_BUDGET = {"quick": 60, "thorough": 900}
 DESIGN_REF = "DESIGN.md section 4, C11"
-TECHNIQUE = "run-time contracts (print/eval round trip on enumerated expression trees, dump/load and copy_expr_from on generated managers); deductive part under construction"
-TRUSTED = ["Python's parser and eval"]
-ASSUMPTIONS = ["functions inside CallRef are references (the API route f_ref.name(...)); a CallRef built directly on a plain Python function prints a bare name that text cannot rebuild (outside the statement)",
-               "a LiteralExpr wrapper prints as, and is identified with, its literal"]
-BOUNDED = ["everything (this revision)"]
-EXPLANATION = "bounded run-time contract check"
-LEVEL_TEXT = "bounded"
-LEVEL_NOTE = "bounded"
+TECHNIQUE = ("contract-based deductive verification of the printing rule of each reference/expression class (pyvc: __repr__ bodies against "
+             "statement-level templates over uninterpreted text functions; operator tokens per class; load/copy_expr_from frame and index "
+             "invariant) + run-time contracts: print/eval round trip on enumerated trees, dump/load and copy_expr_from on generated managers")
+TRUSTED = ["Python's parser and eval: the printed template parses back to the node (keys and arguments printed with repr are literals; children "
+           "are atoms) -- checked at run time on ~7600 enumerated trees, not proved",
+           "str()/repr() of a slot value and f-strings as uninterpreted text functions", "z3"]
+ASSUMPTIONS = ["functions inside CallRef are references (the API route f_ref.name(...)); a CallRef built directly on a plain Python function prints "
+               "a bare name that text cannot rebuild (outside the statement)", "a LiteralExpr wrapper prints as, and is identified with, its literal",
+               "value propagation among members of one nested container after copy_expr_from is subject to known finding K1 (C01)"]
+BOUNDED = ["BuiltinRef.__repr__ and CallRef.__repr__ (list building and joins), the parse-back direction, dump/load/copy_expr_from behaviour: "
+           "run-time only"]
+EXPLANATION = ("proved: the __repr__ of Ref, AttrRef, ItemRef, BinOpExpr (negative left literal parenthesised), UnaryOpExpr, LiteralExpr, EqExpr, "
+               "NeExpr returns exactly the statement-level template over str/repr of the node's slots; every operator class prints the Python token "
+               "of its operator; load keeps the index invariant and is the only way copy_expr_from reaches the manager")
+LEVEL_TEXT = "Mixed: printing templates and operator tokens proved, the parser direction trusted, round trips bounded at run time. Never claimed as proof."
+LEVEL_NOTE = "See TRUSTED / BOUNDED in the evidence file."
